@@ -246,6 +246,9 @@ class EnvSession:
             except Exception:  # noqa  (whatever happens to the other environment is not what is being judged)
                 pass
             run.tags.add("shared-transmitter")
+        # a state that records its history deep-copies every observation: the recording observer (which holds the
+        # whole environment) is left out of it then; such cases do not use the observer log
+        feats = [Age()] if case.get("state_save") else [rec, Age()]
         try:
             if case.get("via_prices"):
                 # the convenience route: the market data is handed over as a price frame (`prices=`), the library
@@ -258,14 +261,14 @@ class EnvSession:
                     assert e[0] == "q" and e[3] == e[4], "via_prices: one bid=ask quote per grid point and contract"
                     cols.setdefault(e[1], {})[from_us(e[2])] = float(Fraction(e[3]))
                 frame = pd.DataFrame({self.objs[k]: pd.Series(v) for k, v in cols.items()}).sort_index()
-                self.env = TradingEnv(action_space=space, state=IState([rec, Age()], save=bool(case.get("state_save", False))),
+                self.env = TradingEnv(action_space=space, state=IState(feats, save=bool(case.get("state_save", False))),
                                       reward=reward, prices=frame, initial_cash=float(self.deposit),
                                       broker_fees=BrokerFees(markup, self.rate, prop, fixed), latency=lat_us / 1e6,
                                       steps_delay=int(case.get("delay", 0)), episode_length=case.get("eplen"))
                 tx = self.env._transmitter
                 run.tags.add("prices-route")
             else:
-                self.env = TradingEnv(action_space=space, state=IState([rec, Age()], save=bool(case.get("state_save", False))), reward=reward, transmitter=tx,
+                self.env = TradingEnv(action_space=space, state=IState(feats, save=bool(case.get("state_save", False))), reward=reward, transmitter=tx,
                                       initial_cash=float(self.deposit), broker_fees=BrokerFees(markup, self.rate, prop, fixed),
                                       latency=lat_us / 1e6, steps_delay=int(case.get("delay", 0)),
                                       episode_length=case.get("eplen"))
